@@ -20,6 +20,14 @@ CHECKS['C08'] = dict(
     text='Generated TlvModel classes (programs) and all shipped models are encoded by the real code and compared byte-for-byte with an independent exact/minimal reference encoder working on the generator-owned spec; decode is compared after normalisation; unknown non-critical/critical elements are inserted at every gap of every nesting level (incl. between a map key and its value), critical elements duplicated and swapped. Held on the classes/values explored.',
     design_ref='DESIGN.md 3/C08', technique='runtime differential monitor over generated programs (model classes) and inputs, with structural fault injection on the wire',
     note='Trusts refcodec and the reflection over _encoded_fields for shipped models; packet models with procedure arguments are covered by C01/C02.')
+CHECKS['C03'] = dict(
+    text='Generated timed histories (express/Data/Nack/cancel/shutdown over 2-5 concurrent Interests, deadline -1/0/+1 ms grids, validator latency vs deadline, both front-ends) are executed on the real NDNApp over a recording face on a virtual clock; call/return events are recorded at the client boundary and compared with a sequential pending-Interest model yielding the set of acceptable outcomes; exception sentinel on packet reception and background tasks; probe Interests and a pending-table emptiness invariant at quiescence. Thorough tier adds a bounded-exhaustive space of orderings.',
+    design_ref='DESIGN.md 3/C03', technique='runtime trace monitor: recorded client-boundary history checked against an executable sequential model on a virtual-time event loop',
+    note='Trusts asyncio semantics and the virtual loop (ready queue never reordered); exact ties accept either order.')
+CHECKS['C16'] = dict(
+    text='Every certificate issued by the real self_sign/sign_req/derive_cert is strictly re-read by the independent codec, its name/content/validity/key locator compared with the request and its signature verified independently under the issuing key; parse_certificate/parse_data must agree. DER signature length histogram recorded.',
+    design_ref='DESIGN.md 3/C16', technique='runtime differential monitor against an independent reference codec and verifier over generated issuance requests',
+    note='self_sign/sign_req read the real clock: their instants are checked within 5 s.')
 _ALL = ['C%02d' % i for i in range(1, 21)]
 for _p in _ALL:
     if _p not in CHECKS:
